@@ -668,7 +668,7 @@ def replay(case):
 
 
 MANIFEST = {
-    "text": "Exploration by runtime monitoring: tables (after generated histories, caches warm or cold), rows, cells, paragraph trees, XML parts, containers (lazy zip, buffer, folder) and documents (fresh, opened, after unsaved edits, raw set_part/del_part, partial loading) are cloned; an aliasing monitor digests everything observable of both twins around the cloning and around every later operation on either twin (interleaved), checks that no cache object is shared, that each table twin still agrees with its own reference model and that each document twin still saves as a package of its own state. Held = equal at birth and no cross-talk on the twins observed.",
+    "text": "Exploration by runtime monitoring: tables (after generated histories, caches warm or cold), rows, cells, paragraph trees, XML parts, containers (lazy zip, buffer, folder) and documents (fresh, opened, after unsaved edits, raw set_part/del_part, partial loading) are cloned; an aliasing monitor digests everything observable of both twins around the cloning and around every later operation on either twin (interleaved), checks that no cache object is shared, that each table twin still agrees with its own reference model and that each document twin still saves as a package of its own state. Held = equal at birth and no cross-talk on the twins observed. Also: a generator signature set before cloning must be written by both twins; clones must not see one another through queries that leave their own subtree.",
     "note": "Trusted: the digests (serialisation + reads + C14N of parts); vf/doclab.py snapshots read private caches only to avoid perturbing them. Replays of this check are by seed (the witness carries the scenario).",
     "technique": "runtime monitoring: before/after digests of both twins around cloning and around every later operation + identity check on cache objects",
 }
